@@ -111,8 +111,8 @@ def stage_b(ctx, view_name, quick):
                                   {'kind': 'life', 'front': front, 'nroutes': nr, 'view': view_name, 'dup': getattr(replay_path, 'last_dup', 0), 'base': getattr(replay_path, 'last_base', ''),
                                    'path': [[a, b] for a, b, _ in path[:i]], 'differences': [list(x) for x in d]})
             ctx.sample({'kind': 'life-path', 'front': front, 'routes': nr, 'actions': [[a, b] for a, b, _ in paths[-1][1][:12]]}, limit=2)
-            ctx.note('AppLife replay %s %d routes (%s view): %d states, %d edges, %d paths' %
-                     (front, nr, view_name, len(g.state), g.n_edges, nrep))
+            ctx.note('AppLife replay %s %d routes (%s view): %d states, %d edges, %d paths; %d reconnections ran in a new event loop' %
+                     (front, nr, view_name, len(g.state), g.n_edges, nrep, lifekit.LifeRun.fresh_loops))
 
 
 def replay(ctx, obj):
